@@ -454,3 +454,22 @@ Proof.
   - intros r [<-|[<-|[]]]; exact I.
   - eexists. vm_compute. reflexivity.
 Qed.
+
+(* ------------------------------------------------------------------ the full request-level statement *)
+(* "every batch of requests through the (repaired) gate is equivalent to some one-at-a-time execution":
+   NOT true -- see gate_handler_split_refuted; true for the classes of fixed_gate_single_principal and
+   fixed_gate_stable_homes. *)
+Definition request_level_full : Prop :=
+  forall pre cfg (reqs : list breq) s0 sch c' rs,
+    store_inv s0 ->
+    exec sch (init s0 (map (breq_prog true pre cfg) reqs)) = Some c' -> finished c' rs ->
+    exists order, Permutation order (seq 0 (length reqs)) /\
+                  fst (serial_handle pre cfg reqs order s0) = fst c' /\
+                  (forall i r, In (i, r) (snd (serial_handle pre cfg reqs order s0)) -> nth_error rs i = Some r).
+
+Theorem request_level_refuted : ~ request_level_full.
+Proof.
+  intro Hfull. destruct gate_handler_split_refuted as [c' [rs [Hinv [He [Hfin [_ Hno]]]]]].
+  destruct (Hfull [] rf_cfg sp_reqs sp_store sp_sched c' rs Hinv He Hfin) as [order [Hp [_ Hr]]].
+  apply Hno. exists order. split; auto.
+Qed.
